@@ -12,14 +12,18 @@ namespace Nun
 
 /-- one record of the keys file -/
 structure KRec where
+  /-- the key the record belongs to, as memory knows it; for an orphan tombstone (a removed key's record that survived a restart,
+  which no entry refers to any more) a ghost name that is no key at all -/
   key : Bytes
+  /-- the key bytes on disk -/
+  bkey : Bytes
   ver : Int
   va : Nat
   /-- ghost: the value stored at `va` in the values file (not part of the record's bytes) -/
   v : Bytes
 deriving Repr
 
-def KRec.enc (r : KRec) : Bytes := encKey r.key r.ver r.va
+def KRec.enc (r : KRec) : Bytes := encKey r.bkey r.ver r.va
 def encRecs (rs : List KRec) : Bytes := rs.flatMap KRec.enc
 def encVals (vs : List Bytes) : Bytes := vs.flatMap encValue
 
@@ -27,7 +31,7 @@ theorem encRecs_append (a b : List KRec) : encRecs (a ++ b) = encRecs a ++ encRe
 theorem encRecs_cons (r : KRec) (t : List KRec) : encRecs (r :: t) = r.enc ++ encRecs t := by simp [encRecs]
 theorem encVals_append (a b : List Bytes) : encVals (a ++ b) = encVals a ++ encVals b := by simp [encVals]
 theorem encVals_cons (v : Bytes) (t : List Bytes) : encVals (v :: t) = encValue v ++ encVals t := by simp [encVals]
-theorem KRec.enc_length (r : KRec) : r.enc.length = keyRecSize r.key.length := C06_key_record_size _ _ _
+theorem KRec.enc_length (r : KRec) : r.enc.length = keyRecSize r.bkey.length := C06_key_record_size _ _ _
 
 /-- overwriting the middle of a file -/
 theorem pwriteBytes_mid (a x b data : Bytes) (h : x.length = data.length) :
@@ -61,8 +65,8 @@ theorem pwrite_record (pre post : Bytes) (k : Bytes) (ver ver' : Int) (va va' : 
 def ValAt (values : Bytes) (va : Nat) (v : Bytes) : Prop := ∃ pre post, values = pre ++ (encValue v ++ post) ∧ pre.length = va
 
 structure GoodRec (values : Bytes) (r : KRec) : Prop where
-  klen : r.key.length < allocBound
-  kutf : validUtf8 r.key = true
+  klen : r.bkey.length < allocBound
+  kutf : validUtf8 r.bkey = true
   verLo : -2147483648 ≤ r.ver
   verHi : r.ver ≤ 2147483647
   vaFit : r.va < 18446744073709551616
@@ -75,9 +79,9 @@ def loadedRecs : List KRec → Nat → Nat → KV → KV
   | [], _, _, m => m
   | r :: t, ka, clock, m =>
     if r.ver != -1 then
-      loadedRecs t (ka + keyRecSize r.key.length) (clock + 1)
-        (AL.put m r.key { value := r.v, version := r.ver, opId := clock, state := .ok, vaddr := r.va, kaddr := ka })
-    else loadedRecs t (ka + keyRecSize r.key.length) clock m
+      loadedRecs t (ka + keyRecSize r.bkey.length) (clock + 1)
+        (AL.put m r.bkey { value := r.v, version := r.ver, opId := clock, state := .ok, vaddr := r.va, kaddr := ka })
+    else loadedRecs t (ka + keyRecSize r.bkey.length) clock m
 
 def liveRecs : List KRec → Nat
   | [] => 0
@@ -110,58 +114,58 @@ theorem loadLoop_recs (values : Bytes) (rs : List KRec) : ∀ (kpre : Bytes) (fu
     | zero => simp at hfuel
     | succ f =>
       have hkeys : kpre ++ encRecs (r :: t)
-          = kpre ++ (le64 r.key.length ++ (r.key ++ (le32i r.ver ++ (le64 r.va ++ encRecs t)))) := by
+          = kpre ++ (le64 r.bkey.length ++ (r.bkey ++ (le32i r.ver ++ (le64 r.va ++ encRecs t)))) := by
         simp [encRecs_cons, KRec.enc, encKey, List.append_assoc]
       have hvals' : values = vp ++ (le64 r.v.length ++ (r.v ++ (le32i 0 ++ vq))) := by
         rw [hvals]; simp [encValue, List.append_assoc]
-      have hkl : r.key.length < 18446744073709551616 := Nat.lt_trans hG.klen allocBound_lt
+      have hkl : r.bkey.length < 18446744073709551616 := Nat.lt_trans hG.klen allocBound_lt
       have hvl : r.v.length < 18446744073709551616 := Nat.lt_trans hG.vlen allocBound_lt
-      have r1 := readInto_at st.lenBuf _ kpre (le64 r.key.length) (r.key ++ (le32i r.ver ++ (le64 r.va ++ encRecs t))) st.pos rfl
+      have r1 := readInto_at st.lenBuf _ kpre (le64 r.bkey.length) (r.bkey ++ (le32i r.ver ++ (le64 r.va ++ encRecs t))) st.pos rfl
         (by rw [le64_length, hl8]) hpos
-      have r2 := readInto_at (List.replicate r.key.length 0) (kpre ++ (le64 r.key.length ++ (r.key ++ (le32i r.ver ++ (le64 r.va ++ encRecs t)))))
-        (kpre ++ le64 r.key.length) r.key (le32i r.ver ++ (le64 r.va ++ encRecs t)) (st.pos + 8)
+      have r2 := readInto_at (List.replicate r.bkey.length 0) (kpre ++ (le64 r.bkey.length ++ (r.bkey ++ (le32i r.ver ++ (le64 r.va ++ encRecs t)))))
+        (kpre ++ le64 r.bkey.length) r.bkey (le32i r.ver ++ (le64 r.va ++ encRecs t)) (st.pos + 8)
         (by simp [List.append_assoc]) (by simp) (by simp [le64_length, hpos])
-      have r3 := readInto_at st.verBuf (kpre ++ (le64 r.key.length ++ (r.key ++ (le32i r.ver ++ (le64 r.va ++ encRecs t)))))
-        (kpre ++ le64 r.key.length ++ r.key) (le32i r.ver) (le64 r.va ++ encRecs t) (st.pos + 8 + r.key.length)
+      have r3 := readInto_at st.verBuf (kpre ++ (le64 r.bkey.length ++ (r.bkey ++ (le32i r.ver ++ (le64 r.va ++ encRecs t)))))
+        (kpre ++ le64 r.bkey.length ++ r.bkey) (le32i r.ver) (le64 r.va ++ encRecs t) (st.pos + 8 + r.bkey.length)
         (by simp [List.append_assoc]) (by rw [le32i_length, hv4]) (by simp [le64_length, hpos]; omega)
-      have r4 := readInto_at st.addrBuf (kpre ++ (le64 r.key.length ++ (r.key ++ (le32i r.ver ++ (le64 r.va ++ encRecs t)))))
-        (kpre ++ le64 r.key.length ++ r.key ++ le32i r.ver) (le64 r.va) (encRecs t) (st.pos + 8 + r.key.length + 4)
+      have r4 := readInto_at st.addrBuf (kpre ++ (le64 r.bkey.length ++ (r.bkey ++ (le32i r.ver ++ (le64 r.va ++ encRecs t)))))
+        (kpre ++ le64 r.bkey.length ++ r.bkey ++ le32i r.ver) (le64 r.va) (encRecs t) (st.pos + 8 + r.bkey.length + 4)
         (by simp [List.append_assoc]) (by rw [le64_length, ha8]) (by simp [le64_length, le32i_length, hpos]; omega)
-      have r5 := readInto_at (le64 r.key.length) values vp (le64 r.v.length) (r.v ++ (le32i 0 ++ vq)) r.va hvals'
+      have r5 := readInto_at (le64 r.bkey.length) values vp (le64 r.v.length) (r.v ++ (le32i 0 ++ vq)) r.va hvals'
         (by rw [le64_length, le64_length]) hvp.symm
       have r6 := readInto_at (List.replicate r.v.length 0) values (vp ++ le64 r.v.length) r.v (le32i 0 ++ vq) (r.va + 8)
         (by rw [hvals']; simp [List.append_assoc]) (by simp) (by simp [le64_length, hvp])
       rw [hkeys, loadLoop]
-      simp only [r1, r2, r3, r4, le64_length, le32i_length, C06_le64_roundtrip r.key.length hkl, C06_le64_roundtrip r.va hG.vaFit, r5,
+      simp only [r1, r2, r3, r4, le64_length, le32i_length, C06_le64_roundtrip r.bkey.length hkl, C06_le64_roundtrip r.va hG.vaFit, r5,
         C06_le64_roundtrip r.v.length hvl, r6, C06_version_roundtrip r.ver hG.verLo hG.verHi]
-      have hk1 : ¬ r.key.length ≥ allocBound := Nat.not_le.2 hG.klen
+      have hk1 : ¬ r.bkey.length ≥ allocBound := Nat.not_le.2 hG.klen
       have hv1 : ¬ r.v.length ≥ allocBound := Nat.not_le.2 hG.vlen
       simp only [hk1, hv1, hG.kutf, hG.vutf, if_false, Bool.not_true, Bool.false_eq_true, show (8 : Nat) ≠ 0 by decide]
-      have hklen' : (kpre ++ r.enc).length = st.pos + 8 + r.key.length + 4 + 8 := by
+      have hklen' : (kpre ++ r.enc).length = st.pos + 8 + r.bkey.length + 4 + 8 := by
         simp [KRec.enc_length, keyRecSize, hpos]; omega
-      have e1 : kpre ++ (le64 r.key.length ++ (r.key ++ (le32i r.ver ++ (le64 r.va ++ encRecs t))))
+      have e1 : kpre ++ (le64 r.bkey.length ++ (r.bkey ++ (le32i r.ver ++ (le64 r.va ++ encRecs t))))
           = kpre ++ r.enc ++ encRecs t := by simp [KRec.enc, encKey, List.append_assoc]
       rw [e1]
       by_cases hver : (r.ver != -1) = true
       · simp only [hver, if_true, loadedRecs, liveRecs]
         have h := ih (kpre ++ r.enc) f
-          { pos := st.pos + 8 + r.key.length + 4 + 8, lenBuf := le64 r.v.length, addrBuf := le64 r.va, verBuf := le32i r.ver,
-            kaddr := st.kaddr + keyRecSize r.key.length,
-            map := AL.put st.map r.key { value := r.v, version := r.ver, opId := st.clock, state := .ok, vaddr := r.va, kaddr := st.kaddr },
+          { pos := st.pos + 8 + r.bkey.length + 4 + 8, lenBuf := le64 r.v.length, addrBuf := le64 r.va, verBuf := le32i r.ver,
+            kaddr := st.kaddr + keyRecSize r.bkey.length,
+            map := AL.put st.map r.bkey { value := r.v, version := r.ver, opId := st.clock, state := .ok, vaddr := r.va, kaddr := st.kaddr },
             clock := st.clock + 1 }
           (fun x hx => hg x (List.mem_cons_of_mem _ hx)) hklen'.symm (le64_length _) (le64_length _) (le32i_length _) (by simp at hfuel; omega)
         rw [h]; simp only [Nat.add_assoc]
       · simp only [hver, if_false, loadedRecs, liveRecs, Bool.false_eq_true, Nat.zero_add]
         have h := ih (kpre ++ r.enc) f
-          { pos := st.pos + 8 + r.key.length + 4 + 8, lenBuf := le64 r.v.length, addrBuf := le64 r.va, verBuf := le32i r.ver,
-            kaddr := st.kaddr + keyRecSize r.key.length, map := st.map, clock := st.clock }
+          { pos := st.pos + 8 + r.bkey.length + 4 + 8, lenBuf := le64 r.v.length, addrBuf := le64 r.va, verBuf := le32i r.ver,
+            kaddr := st.kaddr + keyRecSize r.bkey.length, map := st.map, clock := st.clock }
           (fun x hx => hg x (List.mem_cons_of_mem _ hx)) hklen'.symm (le64_length _) (le64_length _) (le32i_length _) (by simp at hfuel; omega)
         rw [h]
 
 /-- byte offset of the record of key `k` -/
 def offOf : List KRec → Bytes → Option Nat
   | [], _ => none
-  | r :: t, k => if r.key = k then some 0 else (offOf t k).map (· + keyRecSize r.key.length)
+  | r :: t, k => if r.key = k then some 0 else (offOf t k).map (· + keyRecSize r.bkey.length)
 
 def getRec (rs : List KRec) (k : Bytes) : Option KRec := rs.find? (fun r => r.key = k)
 
@@ -273,7 +277,7 @@ theorem getRec_append_new (rs : List KRec) (x : KRec) (h : x.key ∉ rs.map (·.
 
 /-- bytes of the in-place rewrite -/
 theorem encRecs_setRec (rs : List KRec) (hn : (rs.map (·.key)).Nodup) (k : Bytes) (ka : Nat) (ver : Int) (va : Nat) (v : Bytes)
-    (h : offOf rs k = some ka) :
+    (hb : ∀ r ∈ rs, r.key = k → r.bkey = k) (h : offOf rs k = some ka) :
     ∃ pre post ver0 va0, encRecs rs = pre ++ (encKey k ver0 va0 ++ post) ∧ pre.length = ka ∧
       encRecs (setRec rs k ver va v) = pre ++ (encKey k ver va ++ post) := by
   induction rs generalizing ka with
@@ -292,17 +296,18 @@ theorem encRecs_setRec (rs : List KRec) (hn : (rs.map (·.key)).Nodup) (k : Byte
         intro x hx
         have : ¬ x.key = k := fun h2 => hnot (List.mem_map.2 ⟨x, hx, h2⟩)
         simp [this]
+      have hbk : r.bkey = k := hb r List.mem_cons_self hk
       refine ⟨[], encRecs t, r.ver, r.va, ?_, rfl, ?_⟩
-      · simp [encRecs_cons, KRec.enc, hk]
+      · simp [encRecs_cons, KRec.enc, hbk]
       · have : setRec (r :: t) k ver va v = { r with ver := ver, va := va, v := v } :: setRec t k ver va v := by
           simp [setRec, hk]
-        rw [this, hset, encRecs_cons]; simp [KRec.enc, hk]
+        rw [this, hset, encRecs_cons]; simp [KRec.enc, hbk]
     · simp only [hk, if_false] at h
       cases ho : offOf t k with
       | none => simp [ho] at h
       | some ka' =>
         simp only [ho, Option.map_some, Option.some.injEq] at h
-        obtain ⟨pre, post, ver0, va0, h1, h2, h3⟩ := ih hn.2 ka' ho
+        obtain ⟨pre, post, ver0, va0, h1, h2, h3⟩ := ih hn.2 ka' (fun x hx => hb x (List.mem_cons_of_mem _ hx)) ho
         refine ⟨r.enc ++ pre, post, ver0, va0, ?_, ?_, ?_⟩
         · rw [encRecs_cons, h1, List.append_assoc]
         · rw [List.length_append, KRec.enc_length, h2, ← h]; omega
@@ -326,7 +331,9 @@ structure DiskInv (name : Bytes) (m : KV) (fs : Fs) (rs : List KRec) (vs : List 
   fresh : ∀ k e, AL.get? m k = some e → e.state = .new → offOf rs k = none
   stored : ∀ k e, AL.get? m k = some e → e.state ≠ .new → offOf rs k = some e.kaddr ∧
             (e.state = .ok → ∃ r, getRec rs k = some r ∧ r.ver = e.version ∧ r.v = e.value)
-  known : ∀ k, offOf rs k ≠ none → ∃ e, AL.get? m k = some e ∧ e.state ≠ .new
+  known : ∀ k, offOf rs k ≠ none → validUtf8 k = true → ∃ e, AL.get? m k = some e ∧ e.state ≠ .new
+  /-- a record's name is its key on disk — except orphan tombstones, whose ghost name is no valid key -/
+  bk : ∀ r ∈ rs, r.bkey = r.key ∨ (validUtf8 r.key = false ∧ r.ver = -1)
 
 /-- the key is in its post-snapshot condition: clean with a matching record, or a tombstone whose record says so -/
 def CleanKey (m : KV) (rs : List KRec) (k : Bytes) : Prop :=
@@ -345,12 +352,11 @@ theorem getRec_mem_key (rs : List KRec) (k : Bytes) (r : KRec) (h : getRec rs k 
   exact ⟨List.mem_of_find?_eq_some h, by simpa using List.find?_some h⟩
 
 theorem mem_setRec (rs : List KRec) (k : Bytes) (ver : Int) (va : Nat) (v : Bytes) (x : KRec) (h : x ∈ setRec rs k ver va v) :
-    (x ∈ rs ∧ x.key ≠ k) ∨ (x.key = k ∧ x.ver = ver ∧ x.va = va ∧ x.v = v) := by
+    (x ∈ rs ∧ x.key ≠ k) ∨ (x.key = k ∧ x.ver = ver ∧ x.va = va ∧ x.v = v ∧ ∃ r0 ∈ rs, r0.key = k ∧ x.bkey = r0.bkey) := by
   unfold setRec at h
   obtain ⟨r, hr, hx⟩ := List.mem_map.1 h
   by_cases hk : r.key = k
-  · simp only [hk, if_true] at hx; subst hx; exact Or.inr ⟨rfl, rfl, rfl, rfl⟩
+  · simp only [hk, if_true] at hx; subst hx; exact Or.inr ⟨rfl, rfl, rfl, rfl, r, hr, hk, rfl⟩
   · simp only [hk, if_false] at hx; subst hx; exact Or.inl ⟨hr, hk⟩
-
 
 end Nun
